@@ -719,3 +719,78 @@ func VerifCore_SkipRule() {
 	}
 	sym.Assert(skipped == (weak && withConverge), "T3: skips exactly on a weak PREPARE quorum of the later round plus a justified CONVERGE")
 }
+
+// VerifCore_WaitingAlarms (T1): a participant that cannot make progress
+// (PREPARE or COMMIT of round 0 without a quorum of senders, DECIDE without a
+// DECIDE quorum, PREPARE of round 1) receives four alarms, each delivered
+// arbitrarily late, with arbitrary re-broadcast back-off durations: it never
+// fails, never loses its alarm, keeps re-broadcasting, and every re-broadcast request covers what
+// it has emitted for QUALITY, the current and the previous round (DECIDE only
+// in the DECIDE phase).
+func VerifCore_WaitingAlarms() {
+	input := VerifX(2)
+	e := newVerifEnv(input, false)
+	switch sym.Choice("where", 4) {
+	case 0:
+		e.quickToPrepare()
+		sym.Assume(e.phase() == PREPARE_PHASE)
+	case 1:
+		e.quickToCommit()
+		sym.Assume(e.phase() == COMMIT_PHASE)
+	case 2:
+		e.quickToCommit()
+		sym.Assume(e.phase() == COMMIT_PHASE)
+		for _, idx := range []int{0, 1} {
+			if m := e.message(idx, 0, COMMIT_PHASE, input, 3, 0); m != nil {
+				e.deliver(m)
+			}
+		}
+		sym.Assume(e.phase() == DECIDE_PHASE)
+	default:
+		e.quickToRound1()
+		sym.Assume(e.phase() == CONVERGE_PHASE)
+		e.fireAlarm(0)
+		sym.Assume(e.phase() == PREPARE_PHASE && e.p.Progress().Round == 1)
+	}
+	var backoff [2]time.Duration // first re-broadcast delay, then the later ones
+	for k := range backoff {
+		d := sym.Int64("rebroadcast-after-ns")
+		sym.Assume(sym.And(d >= int64(time.Millisecond), d <= int64(10*time.Minute)))
+		backoff[k] = time.Duration(d)
+	}
+	e.p.options.rebroadcastAfter = func(n int) time.Duration { return backoff[min(n, 1)] }
+	startPhase, startRound := e.phase(), e.p.Progress().Round
+	steps := 0
+	for k := 0; k < 4; k++ {
+		late := sym.Int64("alarm-late-ns")
+		sym.Assume(sym.And(late >= 0, late <= int64(time.Hour)))
+		sym.Assert(!e.h.alarm.IsZero(), "T1: an alarm is pending while waiting")
+		before := len(e.h.rebroadcast)
+		e.fireAlarm(time.Duration(late))
+		sym.Assert(e.phase() == startPhase && e.p.Progress().Round == startRound, "stays in its phase without new messages")
+		// (the alarm may lie in the past when the alarm was delivered late: the
+		// host then fires it at once, so it is pending all the same)
+		sym.Assert(!e.h.alarm.IsZero(), "T1: after an alarm a new alarm is pending")
+		if len(e.h.rebroadcast) > before {
+			steps++
+			sym.Cover("rebroadcast")
+			req := map[verifSlot]bool{}
+			for _, in := range e.h.rebroadcast[before:] {
+				sym.Assert(in.ID == verifInstance, "re-broadcast requests are for the current instance")
+				req[verifSlot{in.Round, in.Phase}] = true
+			}
+			for s := range e.emitted {
+				relevant := s.phase == QUALITY_PHASE || s.round == startRound || s.round+1 == startRound
+				if startPhase == DECIDE_PHASE {
+					relevant = s.phase == DECIDE_PHASE
+				} else if s.phase == DECIDE_PHASE {
+					relevant = false
+				}
+				if relevant {
+					sym.Assert(req[s], "a re-broadcast covers everything emitted for QUALITY, the current and the previous round")
+				}
+			}
+		}
+	}
+	sym.Assert(steps >= 2, "keeps re-broadcasting while it waits")
+}
